@@ -14,6 +14,7 @@ SEL0 = "args[1]"
 
 
 def register(w):
+    w.always_standin["C05"] = [(GM + "prepare", "gophermap links must name the bytes written in the gophermap (non-UTF-8 names included), or following them answers not-found")]
     w.always_standin["C09"] = [(GM + "prepare", "string solvers rarely find counter-models over the strip/split axioms: generated gophermaps vs. the reference reading")]
     w.contracts.pop((GM + "prepare", "BuckGophermapHandler"), None)
     w.contract(GM + "prepare", selfclass=["BuckGophermapHandler"], globals=GROOT,
@@ -48,7 +49,7 @@ def register(w):
                     "is the type and the rest of the first field the description, a missing selector defaults to the description, a relative selector is resolved against the "
                     "directory, a missing host/port is None (= this server in every renderer). IndexError/ValueError are declared for malformed lines only "
                     "(empty first field; empty description and selector; non-numeric port) - the weakest well-formedness condition, found by the implicit index obligations.",
-               props=["C09", "C01", "C03"])
+               props=["C09", "C01", "C03", "C05"])
     w.contract("pygopherd/gopherentry.py::getinfoentry", params={"text": "str", "config": "obj:Config"}, modifies=[], raises={}, returns="obj:GopherEntry",
                ensures=["result.type == 'i'", "result.name == text", "result.host == '(NULL)'", "result.port == 0", "result.selector == 'fake'"],
                props=["C09", "C06"])
